@@ -1531,3 +1531,12 @@ func (e *Engine) lemmaByName(name string) *Axiom {
 	}
 	return nil
 }
+
+func (e *Engine) axiomByName(name string) *Axiom {
+	for _, ax := range e.cs.Axioms {
+		if !ax.Lemma && ax.Name == name {
+			return ax
+		}
+	}
+	return nil
+}
